@@ -20,11 +20,37 @@ import kani_gen  # noqa: E402
 import kani_run  # noqa: E402
 
 
+def update_validated(res):
+    """kani/validated.json: `ok` = thorough-only harnesses seen to pass non-vacuously on /repo (the thorough tier schedules only
+    these, see kani_run.select); `not_decided` = resource limit / vacuous cover; `failed` must stay empty on the unchanged tree."""
+    path = os.path.join(os.path.dirname(HERE), 'kani', 'validated.json')
+    try:
+        cur = json.load(open(path))
+    except (OSError, ValueError):
+        cur = dict(ok=[], not_decided={}, failed={})
+    ok = set(cur.get('ok', []))
+    nd = dict(cur.get('not_decided', {}))
+    failed = dict(cur.get('failed', {}))
+    for n, r in res.items():
+        ok.discard(n)
+        nd.pop(n, None)
+        failed.pop(n, None)
+        if r['status'] == 'ok' and not r['vacuous']:
+            ok.add(n)
+        elif r['status'] == 'failed':
+            failed[n] = r['failed_checks'][:3]
+        else:
+            nd[n] = 'vacuous cover' if r['vacuous'] else r['status']
+    with open(path, 'w') as f:
+        json.dump(dict(note='written by tools/validate_harnesses.py from runs against /repo; see DESIGN.md 0A', ok=sorted(ok), not_decided=nd, failed=failed), f, indent=1)
+
+
 def main():
     ap = argparse.ArgumentParser()
     ap.add_argument('--repo', default='/repo')
     ap.add_argument('--pattern', default='.')
     ap.add_argument('--only-thorough', action='store_true')
+    ap.add_argument('--skip-validated', action='store_true', help='skip harnesses already listed in kani/validated.json')
     ap.add_argument('-j', type=int, default=12)
     ap.add_argument('--budget', type=int, default=3600, help='overall budget per batch (s)')
     ap.add_argument('--batch', type=int, default=48)
@@ -33,6 +59,16 @@ def main():
     a = ap.parse_args()
     kani_gen.generate_all()
     names = [n for n, h in sorted(kani_gen.HARNESSES.items()) if re.search(a.pattern, n) and (not a.only_thorough or h['tier'] != 'quick')]
+    # cheap and central families first: kernel tasks, glue, settings pairs, drops, then the API chains (sequential before two workers)
+    prio = ['k_task_', 'k_taskkeys_', 'k_glue_', 'k_pair_', 'k_drop_', 'k_api_seq', 'k_api_par2']
+    names.sort(key=lambda n: (min([i for i, p in enumerate(prio) if n.startswith(p)] + [len(prio)]), n))
+    if a.skip_validated:
+        try:
+            cur = json.load(open(os.path.join(os.path.dirname(HERE), 'kani', 'validated.json')))
+            seen = set(cur.get('ok', [])) | set(cur.get('not_decided', {})) | set(cur.get('failed', {}))
+            names = [n for n in names if n not in seen]
+        except (OSError, ValueError):
+            pass
     d = tempfile.mkdtemp(prefix='orxverif.val.', dir='/var/tmp')
     try:
         crate = kani_run.prepare_scratch(a.repo, os.path.join(d, 'kani'))
@@ -59,6 +95,8 @@ def main():
             print('batch wall %.0fs rc=%s %s' % (out['wall_s'], out['rc'], out['compile_error'] or ''), flush=True)
             with open(a.out, 'w') as f:
                 json.dump(res, f, indent=1)
+            if os.path.realpath(a.repo) == '/repo':
+                update_validated(res)
     finally:
         shutil.rmtree(d, ignore_errors=True)
 
